@@ -26,7 +26,11 @@ TyTS == TTuple(<<TyS, X>>)
 TySTS == TBool(TyTS)
 TySSS == TBool(TySS)
 
-Val(n) == R("val", n, <<>>, TyE)
+\* identifier of the n-th element: the identity, or (configurations *_w: IdOf <- WideId) identifiers whose differences do not fit
+\* 32 bits, so that an ordering computed from a wrapped difference is not a strict total order (seed C15-J)
+IdOf(n) == n
+WideId(n) == CASE n = 1 -> -2000000000 [] n = 2 -> 100 [] n = 3 -> 2000000000 [] OTHER -> n
+Val(n) == R("val", IdOf(n), <<>>, TyE)
 Vals == {Val(i) : i \in 1..NVals}
 TwoVals == {Val(1), Val(2)}
 Tup(x, y, ty) == R("tuple", 0, <<x, y>>, ty)
